@@ -15,8 +15,9 @@ import (
 	"kapverif/rt"
 )
 
-// From is one from() node: empty string = option not set.  Pred is the tag
-// value required by .where(lambda: "tag" == '<v>').
+// From is one from() node: empty string = option not set.  Pred "v" is the tag
+// value required by .where(lambda: "tag" == 'v'), Pred "?v" selects the points
+// without the tag or with value v (.where(lambda: !isPresent("tag") OR "tag" == 'v')).
 type From struct {
 	Meas, DB, RP, Pred string
 	GB                 bool // .groupBy('tag')
@@ -76,6 +77,7 @@ var catalogue = []Shape{
 	{Name: "three", DBRPs: []kapacitor.DBRP{dA, dC}, Froms: []From{{Meas: "m1", RP: "rp2"}, {}, {Meas: "m1"}}},
 	{Name: "gb", DBRPs: []kapacitor.DBRP{dC}, Froms: []From{{GB: true}, {Meas: "m2", GB: true, Pred: "b"}}},
 	{Name: "dbC", DBRPs: []kapacitor.DBRP{dC, dD}, Froms: []From{{Meas: "m1", DB: "d1"}, {DB: "d2"}}},
+	{Name: "absent", DBRPs: []kapacitor.DBRP{dA, dD}, Froms: []From{{Pred: "?b"}, {Meas: "m1", Pred: "a"}, {Meas: "m2", DB: "d2", Pred: "?a"}}},
 	{Name: "dbrp", DBRPs: []kapacitor.DBRP{dA, dC, dD}, Froms: []From{{DB: "d1", RP: "rp2"}, {Meas: "m2", DB: "d2", RP: "rp1", Pred: "a"}}},
 }
 
@@ -94,7 +96,11 @@ func (s Shape) Script(id string) string {
 		if f.RP != "" {
 			fmt.Fprintf(&b, "        .retentionPolicy('%s')\n", f.RP)
 		}
-		if f.Pred != "" {
+		if strings.HasPrefix(f.Pred, "?") {
+			// selects the points that lack the tag, or carry the given value
+			fmt.Fprintf(&b, "        .where(lambda: !isPresent(\"tag\") OR \"tag\" == '%s')\n", f.Pred[1:])
+		} else if f.Pred != "" {
+			// a point that lacks the tag is not selected (the node reports an evaluation error for it)
 			fmt.Fprintf(&b, "        .where(lambda: \"tag\" == '%s')\n", f.Pred)
 		}
 		if f.GB {
@@ -136,6 +142,9 @@ type Op struct {
 	// Content-Length, "chunked" = plain body of unknown length, "gzip-chunked"
 	Enc  string
 	Sync bool // write: wait until everything written so far has been forked
+	// ISync: like Sync, but by the ingress statistics instead of a fence point, so that no
+	// point of another series gets between this write and the next one on the write stream
+	ISync bool
 }
 
 func (o Op) key() string {
@@ -147,6 +156,9 @@ func (o Op) key() string {
 		}
 		if o.HTTP {
 			s += ";h" + o.Enc
+		}
+		if o.ISync {
+			s += ";i"
 		}
 		if o.Sync {
 			s += ";s"
